@@ -312,6 +312,11 @@ class CallMixin:
         key = key_of_function(fn) + ("@setter" if setter else "")
         inst = selfcls.__name__ if selfcls is not None else None
         c = lookup(key, inst)
+        if c is None or c.inst is None:
+            for a in args:
+                if isinstance(a, PyC) and isinstance(a.obj, str) and lookup(key, a.obj) is not None and lookup(key, a.obj).inst == a.obj:
+                    c = lookup(key, a.obj)
+                    break
         if c is None:
             if key in self.inline_keys or (key.endswith(".__init__") and key.startswith("statham.")):
                 fi = find_function(key)
@@ -435,15 +440,35 @@ class CallMixin:
                 sp2 = SpecEval(self, {**env, "result": res}, old_env=env, glob=find_function(c.key).glob)
                 s3.assume(sp2.compile_bool(c.returns), fact=True)
         else:
-            res = self.contract_result(s3, c, env, node)
+            env2 = dict(env)
+            for m in c.modifies:
+                tv = env.get(m)
+                if isinstance(tv, PyList) or (isinstance(tv, Val) and tv.kind in ("list", "set", "dict")):
+                    # a container argument the callee mutates: new (unknown) contents, here and in every local bound to it
+                    nv = self.fresh_val("mut_" + m, kind=tv.kind if isinstance(tv, Val) else tv.kind)
+                    nv.fresh = getattr(tv, "fresh", FALSE) if isinstance(tv, Val) else TRUE
+                    nv.origin = getattr(tv, "origin", None)
+                    s3.assume(f"(k_{nv.kind} {nv.t})", fact=True)
+                    env2[m] = nv
+                    newenv = dict(s3.env)
+                    for nm, w in s3.env.items():
+                        if w is tv:
+                            newenv[nm] = nv
+                            if hasattr(self, "container_touched"):
+                                self.container_touched.add(nm)
+                    s3.env = newenv
+                elif isinstance(tv, SDict):
+                    raise OutOfSubset(f"callee {c.name} mutates a static-key dict argument", node)
+            res = self.contract_result(s3, c, env2, node, old_env=env)
         out.append((s3, res))
         # frame: the callee's modifies must be covered here
         for m in c.modifies:
             self.frame_write_via_callee(s3, c, m, env, node)
         return out
 
-    def contract_result(self, st, c, env, node):
+    def contract_result(self, st, c, env, node, old_env=None):
         pre_state = st.fork()
+        old_env = old_env if old_env is not None else env
         # a callee that modifies a fresh object passed to it: the attributes its postcondition talks about
         # get new (unknown) values, which the postcondition then constrains
         for m in c.modifies:
@@ -487,7 +512,7 @@ class CallMixin:
         res = self.fresh_val("ret", kind=c.result_kind, cls=rcls)
         if c.ghost.get("result_fresh"):
             res.fresh = TRUE
-        sp = SpecEval(self, {**env, "result": res}, old_env=env, glob=find_function(c.key).glob, old_state=pre_state)
+        sp = SpecEval(self, {**env, "result": res}, old_env=old_env, glob=find_function(c.key).glob, old_state=pre_state)
         post = sp.compile_bool(c.returns)
         st.assume(post, fact=True)
         if rcls is not None:
@@ -632,7 +657,44 @@ class CallMixin:
         return out
 
     def nested_comprehension(self, st, n, kind):
-        raise OutOfSubset("comprehension with several generators", n)
+        """[e for x in <static> for y in f(x) if c]: the outer generator is unrolled; inner results are concatenated."""
+        if kind != "list" or len(n.generators) != 2 or n.generators[0].ifs:
+            raise OutOfSubset("comprehension with several generators", n)
+        g0 = n.generators[0]
+        out = []
+        for s, it in self.ev(st, g0.iter):
+            if is_exc(it):
+                out.append((s, it))
+                continue
+            items = self.static_items(it)
+            if items is None:
+                raise OutOfSubset("nested comprehension over a symbolic outer sequence", n)
+            inner = ast.ListComp(elt=n.elt, generators=[n.generators[1]])
+            ast.copy_location(inner, n)
+            ast.fix_missing_locations(inner)
+            paths = [(s, [])]
+            for item in items:
+                nxt = []
+                for s1, acc in paths:
+                    if is_exc(acc):
+                        nxt.append((s1, acc))
+                        continue
+                    s1 = s1.fork()
+                    self.assign_target(s1, g0.target, item, n)
+                    for s2, v in self.comprehension(s1, inner, "list"):
+                        nxt.append((s2, v if is_exc(v) else acc + [v]))
+                paths = nxt
+            for s1, acc in paths:
+                if is_exc(acc):
+                    out.append((s1, acc))
+                    continue
+                if all(isinstance(x, PyList) for x in acc):
+                    out.append((s1, PyList([y for x in acc for y in x.items], "list")))
+                else:
+                    parts = [f"(seqof {asV(self.lift(x))})" for x in acc]
+                    r = self.named_concat(s1, [("seq", p) for p in parts])
+                    out.append((s1, r))
+        return out
 
     def static_items(self, it):
         if isinstance(it, PyList):
@@ -660,6 +722,20 @@ class CallMixin:
                 st.assume(self.kind_pred(hint, value.t), fact=True)
                 value = Val(value.t, "V", value.fresh, hint[0], hint[1], value.origin)
             st.env[target.id] = value
+            return
+        if isinstance(target, (ast.Tuple, ast.List)) and any(isinstance(t, ast.Starred) for t in target.elts):
+            items = self.static_items(value)
+            if items is None:
+                raise OutOfSubset("starred assignment from symbolic sequence", node)
+            k = next(i for i, t in enumerate(target.elts) if isinstance(t, ast.Starred))
+            after = len(target.elts) - k - 1
+            if len(items) < len(target.elts) - 1:
+                raise OutOfSubset("not enough values to unpack", node)
+            for t, v in zip(target.elts[:k], items[:k]):
+                self.assign_target(st, t, v, node)
+            self.assign_target(st, target.elts[k].value, PyList(items[k:len(items) - after], "list"), node)
+            for t, v in zip(target.elts[k + 1:], items[len(items) - after:] if after else []):
+                self.assign_target(st, t, v, node)
             return
         if isinstance(target, (ast.Tuple, ast.List)):
             if isinstance(value, PyList) and len(value.items) == len(target.elts):
@@ -954,21 +1030,38 @@ class CallMixin:
                 self.trusted_used.add("map comprehension: len(r)=len(xs), r[j]=f(xs[j]) (List.length_map, List.getElem_map)")
             else:
                 pq = at(passes, q)
-                s_ok.assume(Eq(f"(= (seq.len {rs}) 0)", f"(forall (({q} Int)) (=> (and (<= 0 {q}) (< {q} (seq.len {sq}))) {Not(pq)}))"))
-                s_ok.assume(Eq(f"(= (seq.len {rs}) (seq.len {sq}))" if kind != "set" else TRUE, f"(forall (({q} Int)) (=> (and (<= 0 {q}) (< {q} (seq.len {sq}))) {pq}))") if kind != "set" else TRUE)
-                # every member of the result comes from a passing index
-                p = fresh_name("p")
-                s_ok.assume(f"(forall (({q} Int)) (! (=> (and (<= 0 {q}) (< {q} (seq.len {rs}))) (exists (({p} Int)) (and (<= 0 {p}) (< {p} (seq.len {sq})) {at(passes, p)} (= (seq.nth {rs} {q}) {elt_term(p)})))) :pattern ((seq.nth {rs} {q}))))")
-                # the first member is the image of the first passing index
-                first = fresh_name("first")
-                self.declare(first, "Int")
-                s_ok.assume(f"(=> (> (seq.len {rs}) 0) (and (<= 0 {first}) (< {first} (seq.len {sq})) {at(passes, first)} (= (seq.nth {rs} 0) {elt_term(first)}) (forall (({q} Int)) (=> (and (<= 0 {q}) (< {q} {first})) {Not(pq)}))))")
-                # every passing index contributes a member
-                pp, qq = fresh_name("pp"), fresh_name("qq")
-                s_ok.assume(f"(forall (({pp} Int)) (! (=> (and (<= 0 {pp}) (< {pp} (seq.len {sq})) {at(passes, pp)}) (exists (({qq} Int)) (and (<= 0 {qq}) (< {qq} (seq.len {rs})) (= (seq.nth {rs} {qq}) {elt_term(pp)})))) :pattern ((seq.nth {sq} {pp}))))")
+                lean = self.contract.ghost.get("filter_facts") == "membership"
+                if not lean:
+                    s_ok.assume(Eq(f"(= (seq.len {rs}) 0)", f"(forall (({q} Int)) (=> (and (<= 0 {q}) (< {q} (seq.len {sq}))) {Not(pq)}))"))
+                    s_ok.assume(Eq(f"(= (seq.len {rs}) (seq.len {sq}))" if kind != "set" else TRUE, f"(forall (({q} Int)) (=> (and (<= 0 {q}) (< {q} (seq.len {sq}))) {pq}))") if kind != "set" else TRUE)
+                    # every member of the result comes from a passing index
+                    p = fresh_name("p")
+                    s_ok.assume(f"(forall (({q} Int)) (! (=> (and (<= 0 {q}) (< {q} (seq.len {rs}))) (exists (({p} Int)) (and (<= 0 {p}) (< {p} (seq.len {sq})) {at(passes, p)} (= (seq.nth {rs} {q}) {elt_term(p)})))) :pattern ((seq.nth {rs} {q}))))")
+                    # the first member is the image of the first passing index
+                    first = fresh_name("first")
+                    self.declare(first, "Int")
+                    s_ok.assume(f"(=> (> (seq.len {rs}) 0) (and (<= 0 {first}) (< {first} (seq.len {sq})) {at(passes, first)} (= (seq.nth {rs} 0) {elt_term(first)}) (forall (({q} Int)) (=> (and (<= 0 {q}) (< {q} {first})) {Not(pq)}))))")
+                    # every passing index contributes a member
+                    pp, qq = fresh_name("pp"), fresh_name("qq")
+                    s_ok.assume(f"(forall (({pp} Int)) (! (=> (and (<= 0 {pp}) (< {pp} (seq.len {sq})) {at(passes, pp)}) (exists (({qq} Int)) (and (<= 0 {qq}) (< {qq} (seq.len {rs})) (= (seq.nth {rs} {qq}) {elt_term(pp)})))) :pattern ((seq.nth {sq} {pp}))))")
+                # membership form (identity element): a member of the source that passes is a member of the result
+                et = elt_term(j)
+                src_elem = f"(seq.nth {sq} {j})"
+                if kind == "list" and et == src_elem:
+                    x = fresh_name("x")
+                    px = at(passes, j).replace(src_elem, x).replace(f"(< {j} (seq.len {sq}))", "true").replace(f"(<= 0 {j})", "true")
+                    if not _re.search(r"(?<![\w])" + _re.escape(j) + r"(?![\w])", px):
+                        qd = fresh_name("qd")
+                        s_ok.assume(f"(forall (({qd} Int)) (! (=> (and (<= 0 {qd}) (< {qd} (seq.len {rs}))) {px.replace(x, f'(seq.nth {rs} {qd})')}) :pattern ((seq.nth {rs} {qd}))))")
+                        s_ok.assume(f"(forall (({x} V)) (! (= (ismem {rs} {x}) (and (ismem {sq} {x}) {px})) :pattern ((ismem {rs} {x})) :pattern ((ismem {sq} {x}))))")
                 # at least two members iff two distinct indices pass
                 p1, p2 = fresh_name("p1"), fresh_name("p2")
-                s_ok.assume(Eq(f"(>= (seq.len {rs}) 2)", f"(exists (({p1} Int) ({p2} Int)) (and (<= 0 {p1}) (< {p1} {p2}) (< {p2} (seq.len {sq})) {at(passes, p1)} {at(passes, p2)}))"))
-                self.trusted_used.add("filter comprehension: len bounds, emptiness iff no index passes, members are images of passing indices, first member from first passing index, >= 2 members iff two indices pass (List.filter/map lemmas)")
+                if not lean:
+                  s_ok.assume(Eq(f"(>= (seq.len {rs}) 2)", f"(exists (({p1} Int) ({p2} Int)) (and (<= 0 {p1}) (< {p1} {p2}) (< {p2} (seq.len {sq})) {at(passes, p1)} {at(passes, p2)}))"))
+                if lean:
+                    self.trusted_used.add("filter comprehension [x for x in xs if p(x)] (membership profile): len(r) <= len(xs), every member of r satisfies p, "
+                                          "x in r iff x in xs and p(x) (List.mem_filter)")
+                else:
+                  self.trusted_used.add("filter comprehension: len bounds, emptiness iff no index passes, members are images of passing indices, first member from first passing index, >= 2 members iff two indices pass (List.filter/map lemmas)")
         out.append((s_ok, r))
         return out
